@@ -48,10 +48,29 @@ while True:
 
 
 class RecLog(object):
-    """records write / flush calls and argument types"""
+    """records write / flush calls and argument types.  Every other instance also looks like an interactive text stream (the attributes
+    sys.stdout has on a terminal): what a log file says about itself does not change what it is owed - a write and a flush per piece."""
+    _made = 0
 
     def __init__(self):
         self.ev = []
+        RecLog._made += 1
+        self._tty = RecLog._made % 2 == 0
+        if self._tty:
+            self.line_buffering = True
+            self.write_through = False
+            self.closed = False
+            self.name = '<stdout>'
+            self.mode = 'w'
+            self.encoding = 'utf-8'
+            self.errors = 'strict'
+            self.newlines = None
+
+    def isatty(self):
+        return self._tty
+
+    def writable(self):
+        return True
 
     def write(self, s):
         self.ev.append(('w', s))
